@@ -143,7 +143,8 @@ class Ctx:
             self.cov["states"] += res["distinct"]
             self.cov["transitions"] += res["generated"]
         elif not (allow_violation and res["violated"]):
-            raise ToolFailure("TLC run %s did not complete cleanly (rc=%d):\n%s" % (name, r.returncode, out[-4000:]))
+            errs = "\n".join(l for l in out.splitlines() if l.startswith("Error:") or "line " in l and "col " in l)[:1500]
+            raise ToolFailure("TLC run %s did not complete cleanly (rc=%d):\n%s\n...\n%s" % (name, r.returncode, errs, out[-1200:]))
         return res
 
     # ------------------------------------------------------------------ verdicts
